@@ -11,8 +11,7 @@ import Driver.Util
   * `hslice` / `hreor` / `hcanon` = the three above + `<kind> <hist>`: the image kind (`p` proxy, `a` array
     image, `a2|a4|a8` array image whose array has that native floating dtype) and the calls made on the
     image before the operation (`-` or `;`-separated: `u` = uncache(), `g<2|4|8><f|u><e|->` =
-    get_fdata(dtype=float16|32|64, caching='fill'|'unchanged') followed (`e`) by the in-place reversal of
-    the returned array).  Output: as the base op, the data list being the ORIGINAL element number each
+    get_fdata(dtype=float16|32|64, caching='fill'|'unchanged') followed by an in-place edit of the returned array: `e` reversal, `o` rotation by one).  Output: as the base op, the data list being the ORIGINAL element number each
     output voxel holds, then ` cache=<none|f2|f4|f8>[a]` (a = the cache is the data object).
   ornt = rows `ax,flip` or `nan` separated by `;`.  idx items as in C06 (`sA,B,C`, `iN`, `n`, `e`). -/
 namespace Nb.Drv.C05
@@ -97,30 +96,36 @@ def parseKind? (s : String) : Option (Bool × Option FD) :=
   else if s = "a8" then some (false, some .f8)
   else none
 
-def parseHStep? (s : String) : Option HStep :=
+/-- the in-place edits of the protocol: `e` = C-order reversal, `o` = rotation by one
+    (`a[...] = np.roll(a.ravel(), -1).reshape(a.shape)`), `-` = none -/
+def parseEdit? (e : Char) : Option (Option (List Nat → List Nat)) :=
+  if e = 'e' then some (some List.reverse)
+  else if e = 'o' then some (some (fun l => l.rotateLeft 1))
+  else if e = '-' then some none else none
+
+def parseHStep? (s : String) : Option (HStep Nat) :=
   match s.toList with
   | ['u'] => some .uncache
   | ['g', d, c, e] =>
-      match parseFD? d, (if c = 'f' then some true else if c = 'u' then some false else none),
-            (if e = 'e' then some true else if e = '-' then some false else none) with
+      match parseFD? d, (if c = 'f' then some true else if c = 'u' then some false else none), parseEdit? e with
       | some dt, some fill, some edit => some (.getFdata dt fill edit)
       | _, _, _ => none
   | _ => none
 
-def parseHist? (s : String) : Option (List HStep) :=
+def parseHist? (s : String) : Option (List (HStep Nat)) :=
   if s = "-" then some [] else (s.splitOn ";").mapM parseHStep?
 
-def showCache : Option FCache → String
+def showCache : Option (FCache Nat) → String
   | none => "cache=none"
   | some c => "cache=" ++ (match c.dt with | .f2 => "f2" | .f4 => "f4" | .f8 => "f8") ++ (if c.alias then "a" else "")
 
 /-- the image after the history: kind, number of elements, steps -/
-def histState (kind : Bool × Option FD) (shape : List Nat) (h : List HStep) : ImgSt :=
-  (ImgSt.init kind.1 kind.2 (shape.foldl (· * ·) 1)).run h
+def histState (kind : Bool × Option FD) (shape : List Nat) (h : List (HStep Nat)) : ImgSt Nat :=
+  (ImgSt.init kind.1 kind.2 (prodN shape)).run (fun _ k => k) h
 
-def showReorH (shape : List Nat) (r : ReorOut) (st : ImgSt) : String :=
+def showReorH (shape : List Nat) (r : ReorOut) (st : ImgSt Nat) : String :=
   "same=" ++ (if r.same then "1" else "0") ++ " " ++ showList r.shape ++ " " ++ showList r.affine.toList ++
-    " " ++ showList (st.values (r.data shape)) ++ " " ++ showDim r.dimInfo ++ " " ++ showCache st.cache
+    " " ++ showList (st.values .dataobj (r.data shape)) ++ " " ++ showDim r.dimInfo ++ " " ++ showCache st.cache
 
 def handle : List String → String
   | ["hslice", shape, aff, idx, kind, hist] =>
@@ -130,7 +135,7 @@ def handle : List String → String
           | .ok o =>
               let st := histState kind shape hist
               "ok " ++ showList o.shape ++ " " ++ showList o.affine.toList ++ " " ++
-                showList (st.values (o.data shape)) ++ " " ++ showCache st.cache
+                showList (st.values .dataobj (o.data shape)) ++ " " ++ showCache st.cache
           | .error e => showErr e
       | _, _, _, _, _ => "bad-op"
   | ["hreor", shape, aff, ornt, dim, kind, hist] =>
